@@ -20,6 +20,9 @@ pub enum ContractError {
     #[error("No voters")]
     NoVoters {},
 
+    #[error("Duplicate voter address")]
+    DuplicateVoter {},
+
     #[error("Unauthorized")]
     Unauthorized {},
 
